@@ -51,12 +51,14 @@ class Node:
         self.starter = None
 
     # ------------------------------------------------------------------ life cycle
-    def start(self, refused=False, racing=False):
+    def start(self, refused=False, racing=False, refused_errno=None):
         """Diameter.start() in an application thread; returns once that thread has finished (racing: the new state machine
         thread runs while start() is still executing, in a random interleaving)"""
         self.generation += 1
         self.sock = vsched.FakeSock()
         self.sock.refused = refused
+        if refused_errno is not None:
+            self.sock.refused_errno = refused_errno
         if self.role == "client":
             vsched.NEXT_SOCKS.append(self.sock)
         else:
